@@ -4,6 +4,7 @@ CONSTANTS
   Users = {"U1", "U2"}
   OpKinds = {"ctor", "mctor"}
   MaxHist = 2
+  FreshVals = TRUE
 INVARIANT Refines
 PROPERTY NoUpward
 PROPERTY SafeUntouched
